@@ -34,6 +34,8 @@ type txSpec struct {
 	attr bool
 	// scope of a signer (absent = Global); ordinary transactions only
 	scope map[util.Uint160]sigScope
+	// emptied: class of the "voting account emptied" addition ("one", "several", "+back"), "" = none
+	emptied string
 	// exhaust: 1 = SystemFee chosen so that SystemFee+NetworkFee equals the payer's deposit exactly,
 	// 2 = one datoshi less than the deposit, 0 = sysFee as given
 	exhaust int
@@ -349,10 +351,8 @@ func (w *world) runBlock(o *hx.Out, k int, specs []*txSpec) bool {
 	bad := func(s string) { o.Fail("event-shape", k, "block %d: %s", idx, s) }
 	var all []xfer
 	// OnPersist: the model finds the primary's account itself (validators of the running epoch)
-	// designation takes effect from the block after the one that stored it
-	effNot := w.notariesAt(idx)
 	var sb strings.Builder
-	fmt.Fprintf(&sb, "onpersist %d %s %d", primary, effNot, len(txs))
+	fmt.Fprintf(&sb, "onpersist %d %d", primary, len(txs))
 	for i, tx := range txs {
 		nk, payer := "-", "-"
 		if specs[i].notary {
@@ -401,6 +401,9 @@ func (w *world) runBlock(o *hx.Out, k int, specs []*txSpec) bool {
 			obs = strings.Join(parts, " ")
 			all = append(all, w.transfers(ra[0].Events, bad)...)
 			o.Count("tx:HALT")
+			if s.emptied != "" {
+				o.Count("class:voter-emptied-" + s.emptied)
+			}
 			if s.raw == nil && len(parts)-1 == len(s.calls) {
 				for j, c := range s.calls {
 					o.Count("res:" + c.label(w) + ":" + parts[j+1])
